@@ -58,6 +58,24 @@ class Scope(BaseScope):
         return self.top.source.filename
 
 
+class flow_cached(object):
+    """cached_property for region tables: a table computed while a loop back
+    edge is unresolved may miss what flows back, so it is forgotten when that
+    resolution completes"""
+    def __init__(self, func):
+        self.func = func
+        self.name = func.__name__
+
+    def __get__(self, obj, cls):  # type: ignore[no-untyped-def]
+        if obj is None:
+            return self
+        value = obj.__dict__[self.name] = self.func(obj)
+        pending = obj.scope.top._pending_memos
+        if pending:
+            pending[-1].append((obj, self.name))
+        return value
+
+
 class Flow(object):
     def __init__(self, hint, scope, parents=None):
         # type: (str, Scope, t.MutableSequence[Flow | LoopFlow] | None) -> None
@@ -82,12 +100,12 @@ class Flow(object):
                 self.scope.locals.add(name.name)
             insert_loc(self._names, name)
 
-    @cached_property
+    @flow_cached
     def names(self):
         # type: () -> t.Mapping[str, Name | MultiName]
         return MergedDict({n.name: n for n in self._names}, self.parent_names)
 
-    @cached_property
+    @flow_cached
     def parent_names(self):
         # type: () -> t.Mapping[str, Name | MultiName ]
         if len(self.parents) == 1:
@@ -157,12 +175,19 @@ class LoopFlow(object):
         except AttributeError:
             pass
 
+        pending = self.parent.scope.top._pending_memos
+        pending.append([])
         self._resolving = True
         try:
-            result = self._names = self.parent.names
+            result = self.parent.names
         finally:
             self._resolving = False
+            for obj, attr in pending.pop():
+                obj.__dict__.pop(attr, None)
 
+        self._names = result
+        if pending:
+            pending[-1].append((self, '_names'))
         return result
 
 
@@ -186,6 +211,7 @@ class SourceScope(Scope):
         self._star_imports = []
         self._attr_assigns = []
         self._global_names = {}
+        self._pending_memos = []  # type: list[list[tuple[t.Any, str]]]
 
     def __repr__(self):
         # type: () -> str
